@@ -366,7 +366,7 @@ const hdrDec = "From Verif Require Import Base.Prelude Enc.CborEnc Enc.CborDec H
 const hdrJson = "From Verif Require Import Base.Prelude Enc.CborEnc Harness.C09H Harness.C08H.\nOpen Scope N_scope."
 
 func runC08(c *Ctx) {
-	c.Res.Rule = "a case is one logging program of the shared generator (every field method of Event / Context / Array, Dict / Object / EmbedObject / Fields nesting <= 3, context layers, level, message; values restricted to what the property quantifies over: 4/16-byte IPs, 6-byte MACs, canonical prefixes, embedded JSON that is JSON; all times of a program in one location), executed under both build tags from the same seed; plus directed programs: every definite-length typed slice method with 256 and more elements (counts around the 1-/2-byte header widths and counts whose low byte is below 24 with model shards; counts around the 2-/4-byte width, 65535..65559, Go-side only), and a grid of fractional instants (seconds x nanoseconds, up to years 1066 and 9999 and both sides of the int64-nanosecond range) through Time, Times, Context.Time and Timestamp; corpus first (Uint(1<<63), Uint64(MaxUint64), Bytes with quote/backslash/newline/0xff, Fields with []error, field-less EmbedObject in a context); non-trivial = at least one field besides the level; distinct by the field-list term"
+	c.Res.Rule = "a case is one logging program of the shared generator (every field method of Event / Context / Array, Dict / Object / EmbedObject / Fields nesting <= 3, context layers, level, message; values restricted to what the property quantifies over: 4/16-byte IPs, 6-byte MACs, canonical prefixes, embedded JSON that is JSON; all times of a program in one location), executed under both build tags from the same seed; plus directed programs: every definite-length typed slice method with 256 and more elements (counts around the 1-/2-byte header widths and counts whose low byte is below 24 with model shards; counts around the 2-/4-byte width, 65535..65559, Go-side only), an alignment sweep (one event / a three-event stream carrying every tagged and multi-byte value kind behind a padding string of EVERY length of the windows that move the value block across stream offsets 4096, 8192 and 12288, followed by 4200 more bytes; the same event through readers delivering 4 .. 512 bytes per Read at every offset; every generated line through readers delivering 1 .. 4095 bytes per Read and all lines as one stream), each decoded text compared with the JSON build's line; and a grid of fractional instants (seconds x nanoseconds, up to years 1066 and 9999 and both sides of the int64-nanosecond range) through Time, Times, Context.Time and Timestamp; corpus first (Uint(1<<63), Uint64(MaxUint64), Bytes with quote/backslash/newline/0xff, Fields with []error, field-less EmbedObject in a context); non-trivial = at least one field besides the level; distinct by the field-list term"
 	ps := programs(c)
 	big := bigSlices(c, c.R.Fork())
 	if zerolog.VerifC08EncIsCBOR() {
@@ -390,6 +390,9 @@ func runBinary(c *Ctx, ps, big []*cborgen.Prog) {
 		j    interface{}
 	}
 	var decs []decCase
+	var chIdx []int
+	var chBins, chDecs [][]byte
+	var chErrs []string
 	c.OpenShards(hdrBin, "(tables * (list (list N * cval) * list (list N * cval) * list (list N * cval))) * list N", "mismatches c09_run_event c09_eqb", 80)
 	for i, p := range ps {
 		w := &capture{}
@@ -409,6 +412,7 @@ func runBinary(c *Ctx, ps, big []*cborgen.Prog) {
 		b, _ := json.Marshal(rec)
 		wr.Write(b)
 		wr.WriteByte('\n')
+		chIdx, chBins, chDecs, chErrs = append(chIdx, i), append(chBins, bin), append(chDecs, append([]byte{}, dec...)), append(chErrs, derr)
 		// model: the binary bytes
 		c.AddCase(fmt.Sprintf("((%s, %s), %s)", p.Tb, p.FieldsCoq(), cbs(bin)), map[string]interface{}{"program": in, "binary_hex": rec.Bin})
 		// model: the decoder's text (oracle answers for every float / timestamp position of the line)
@@ -435,6 +439,9 @@ func runBinary(c *Ctx, ps, big []*cborgen.Prog) {
 	}
 	c.Res.ExtraCoverage["programs"] = len(ps)
 	c.Res.ExtraCoverage["build"] = "binary_log"
+	// directed: where the decoder's reads fall (align.go)
+	chunkedDecodes(c, chIdx, chBins, chDecs, chErrs)
+	alignBinary(c)
 	// the big slices (Go-side only): reference parser here, the comparison with the JSON build's line in the variant run
 	if fb, err := os.Create(filepath.Join(c.Out, "lines_big.jsonl")); err == nil {
 		wb := bufio.NewWriter(fb)
@@ -703,6 +710,10 @@ func runJSON(c *Ctx, ps, big []*cborgen.Prog) {
 			c.Violate(Violation{Key: k, Monitor: "decode-equivalence", Desc: "binary build decoded vs JSON build: " + m, Case: cs, Observed: clip(string(dec)), Expected: clip(string(line))})
 		}
 	}
+	// directed: the alignment sweep (align.go), first so that its witnesses are the ones kept
+	alignJSON(c, parent, compare)
+	chunkRecs, _ := readRecs(filepath.Join(parent, "lines_chunk.jsonl"))
+	chunkCompared := 0
 	for i, p := range ps {
 		w := &capture{}
 		p.Run(w)
@@ -712,6 +723,12 @@ func runJSON(c *Ctx, ps, big []*cborgen.Prog) {
 			continue
 		}
 		line := w.bufs[0]
+		// decodes of the same binary line through other readers that were not byte-identical to the plain one (align.go)
+		for _, cr := range chunkRecs[i] {
+			chunkCompared++
+			d := cr.decoded()
+			compare(map[string]interface{}{"program": i, "desc": p.Desc, "binary_hex": bin[i].Bin, "decoded_through": cr.Reader, "decoded": string(d), "json_line": string(line)}, lineRec{I: i, Err: cr.Err}, d, line)
+		}
 		c.AddCase(fmt.Sprintf("(((%s, %s), %s), %s)", p.JT.Coq(), p.Tb, p.FieldsCoq(), cbs(line)), map[string]interface{}{"program": in, "json_line": string(line)})
 		c.Count(p.FieldsCoq(), len(p.All()) > 1)
 		// oracle hypotheses of the theorem: strconv's 'f' and (cleaned) 'e' texts denote the same number
@@ -767,6 +784,7 @@ func runJSON(c *Ctx, ps, big []*cborgen.Prog) {
 	} else if len(bin) > 0 {
 		c.Note("no lines_big.jsonl in %s: the big-slice comparison was skipped", parent)
 	}
+	c.Res.ExtraCoverage["compared_chunked_decodes_that_differed"] = chunkCompared
 	c.Res.ExtraCoverage["compared_big_slice_programs"] = bigCompared
 	c.Res.ExtraCoverage["compared_programs"] = compared
 	c.Res.ExtraCoverage["floats_checked_f_vs_e"] = floats
